@@ -258,6 +258,8 @@ func init() {
 			for _, a := range setCall.Args {
 				if l, ok := ast.Unparen(a).(*ast.FuncLit); ok {
 					lit = l
+				} else if l, ok := ast.Unparen(deref(info, a)).(*ast.FuncLit); ok {
+					lit = l // b.timeoutNotifier(b.batchToken): an extracted helper that returns the closure
 				}
 			}
 			if lit == nil {
@@ -270,6 +272,15 @@ func init() {
 					if o := prog.IdentObj(info, send.Value); o != nil {
 						if def := localDef(info, f.Decl.Body, o); def != nil && prog.SelField(info, def) == tok {
 							okSend = true
+						}
+					}
+					// a parameter of the helper that builds the closure: bound to the generation when
+					// the timer is armed
+					if id, isID := ast.Unparen(send.Value).(*ast.Ident); isID && !okSend {
+						if v, isVar := info.Uses[id].(*types.Var); isVar && !v.IsField() {
+							if d := ast.Unparen(deref(info, id)); d != ast.Expr(id) && prog.SelField(info, d) == tok {
+								okSend = true
+							}
 						}
 					}
 				}
